@@ -251,7 +251,7 @@ namespace c16h
     {
       const MeshSpec& ms = fam[im];
       // the treatment of existing contents does not depend on the mesh: a sample of the family is enough
-      const size_t stride = c.thorough ? 3u : (Shape_::dimension == 3 ? 8u : 12u);
+      const size_t stride = c.thorough ? 3u : 4u;
       if((im % stride) != 0) continue;
       if(!c.want()) continue;
       c.desc([&]{ return sn + " history mesh " + ms.str(); });
@@ -279,7 +279,7 @@ namespace c16h
       "matrix/vector/scalar matrix/scalar vector), TraceAssembler operator matrix and functional vector; FMT (result independent of old contents, bitwise) for "
       "BilinearOperatorAssembler::apply1/2, GradPresDivVeloAssembler B and D (both, also with the partner matrix empty on entry, and automatically vs externally "
       "built structure), GradOperatorAssembler matrix version. The voxel assemblers (ACC) go through the same histories in c16_voxel. Non-trivial: every case.";
-    spec.bounds_quick = "this binary: tria/quad (c16_history) resp. tetra/hexa (c16_history3d); every 12th (2D) / 8th (3D) mesh of the family";
+    spec.bounds_quick = "this binary: tria/quad (c16_history) resp. tetra/hexa (c16_history3d); every 4th mesh of the family";
     spec.bounds_thorough = "every third mesh of the (3D: thorough) family";
     spec.assumptions = {
       "classification ACC/FMT is taken from the doc comments ([in,out] + scaling factor = assembles into; 'gets overwritten' / formatted result = FMT); a route that behaves "
